@@ -337,7 +337,7 @@ def run(ctx):
     ctx.assume("'the clock reading taken for that call' = readings of the substituted cassandra.timestamps.time.time() made by the calling "
                "thread during the call; the bound is floor(reading*10^6) in exact arithmetic (<= any float evaluation)")
     real_time_attr = ts_mod.time
-    t_budget = 45 if ctx.quick else 420
+    t_budget = 50 if ctx.quick else 420
     deadline = _real_time.time() + t_budget
     try:
         if ctx.worker in (None, 0):
